@@ -189,7 +189,11 @@ func (m *Model) RunOwn(s *Sink, rule string) {
 	act := m.PkgFunc("textwire", "applyComponentToProgram")
 	if act != nil {
 		ok := false
-		for _, b := range act.Blocks {
+		var actBlocks []*ssa.BasicBlock
+		for _, h := range m.helpersOf(act) { // the loader function and the private helpers its body is split into
+			actBlocks = append(actBlocks, h.Blocks...)
+		}
+		for _, b := range actBlocks {
 			for _, in := range b.Instrs {
 				c, isC := in.(*ssa.Call)
 				if !isC || c.Call.StaticCallee() == nil || canonFnName(c.Call.StaticCallee()) != "New" || len(c.Call.Args) < 5 {
